@@ -139,6 +139,22 @@ def run(rep, tier, seed):
                                    hrec["scenario"], json.dumps(hrec["final"])[:200]),
                                "kind": "lin", "replay": hrec, "features": ["vmap_conc", "vmap_amp"]})
         tot_hist += len(ha)
+        # 6. Length under concurrency: a writer moves a token round a ring of keys, readers call Length; a result outside the sizes the
+        #    map has after the prefixes of the writer's operations has no linearization (spec/Trace_VMapLen.tla)
+        lenf = w.path("len.ndjson")
+        run_vh(["vmap-len", "-out", lenf, "-runs", "8" if thorough else "3", "-calls", "200000" if thorough else "100000"], env={"VERIF_SEED": str(seed)}, timeout=3000)
+        lres = lenf + ".result.json"
+        tlc_must_pass(run_tlc(w, "Trace_VMapLen", "Trace_VMapLen.cfg", env={"TRACE": lenf, "RESULT": lres}, workers=1, timeout=600), "Trace_VMapLen")
+        jl = json.load(open(lres))
+        lrows = read_ndjson(lenf)
+        for b in jl["bad"]:
+            e = lrows[b["i"] - 1]
+            why = sorted(b["why"])
+            key = "length-not-atomic" if why == ["length-outside-every-linearization"] else "len-%s-%d" % ("+".join(why), b["i"])
+            rep.violation({"key": key, "kind": "len", "features": ["vmap_conc", "vmap_len"] + why, "replay": e,
+                           "what": "%s: one writer moves a token round %d keys (1 or 2 live keys after every prefix of its operations), two readers made %d Length calls and saw the results %s; quiescent Length %d (expected %d)" % (
+                               "/".join(why), e["ring"], e["calls"], e["seen"], e["final"], e["finalExpected"])})
+        rep.set("trace_length", {"runs": len(lrows), "length_calls": sum(e["calls"] for e in lrows), "distinct_results": sorted({v for e in lrows for v in e["seen"]})})
         rep.set("trace_amplified", {"histories": len(ha), "scenarios": sa["scenarios"], "keys_per_history": 32})
         rep.set("trace_conc", {"histories": tot_hist, "overlapping_same_key_pairs": overlap})
         rep.set("traces_validated_against_impl", s["histories"] + tot_hist + rep.cov["trace_seq"]["histories"])
